@@ -372,6 +372,19 @@ impl VoiceSpec {
                     options.push(format!("LN_GAIN={}", log_gain as usize));
                 }
                 options.push(format!("ALPHA={}", alpha));
+                // the header's option entries in any order, and the flags also spelled out at stage 0
+                // (seeded change C04f: a default that depends on the order in which the entries are visited)
+                if stage == 0 {
+                    match m.below(4) {
+                        0 => options.push(format!("LN_GAIN={}", log_gain as usize)),
+                        1 => { options.push("GAMMA=0".to_string()); options.push(format!("LN_GAIN={}", log_gain as usize)); }
+                        _ => {}
+                    }
+                }
+                for i in (1..options.len()).rev() {
+                    let j = m.below(i + 1);
+                    options.swap(i, j);
+                }
             }
             streams.push(StreamSpec { name: name.to_string(), veclen, is_msd, use_gv, options, windows, model, gv });
         }
